@@ -14,6 +14,9 @@ use crate::{
 
 const TIMEOUT_DURATION_ON_ERROR: Duration = Duration::from_millis(510);
 
+#[cfg(actix_net_verif)]
+pub(crate) mod verif;
+
 struct ServerSocketInfo {
     token: usize,
 
@@ -136,6 +139,8 @@ impl Accept {
 
             for event in events.iter() {
                 let token = event.token();
+                #[cfg(actix_net_verif)]
+                verif::on_event(token);
                 match token {
                     WAKER_TOKEN => {
                         let exit = self.handle_waker(sockets);
@@ -153,6 +158,11 @@ impl Accept {
 
             // check for timeout and re-register sockets
             self.process_timeout(sockets);
+
+            #[cfg(actix_net_verif)]
+            if verif::single_step() {
+                return;
+            }
         }
     }
 
@@ -337,6 +347,9 @@ impl Accept {
         let next = self.next();
         match next.send(conn) {
             Ok(_) => {
+                #[cfg(actix_net_verif)]
+                verif::yield_point(verif::Point::AfterSend(next.idx()));
+
                 // Increment counter of WorkerHandle.
                 // Set worker to unavailable with it hit max (Return false).
                 if !next.inc_counter() {
